@@ -160,7 +160,9 @@ func (b *BoltStorage) Load(ctx *Context, loc string) ([]Pair, error) {
 		for k, v := c.First(); k != nil; k, v = c.Next() {
 			Log(INFO|STORAGE, ctx, "BoltStorage.Load", "location", loc,
 				"key", string(k), "val", string(v))
-			data = append(data, Pair{k, v})
+			// Bolt owns k and v, which are only valid during
+			// this transaction, so we have to copy them.
+			data = append(data, Pair{append([]byte(nil), k...), append([]byte(nil), v...)})
 		}
 		return nil
 	})
